@@ -50,6 +50,7 @@ def run(ctx: Ctx) -> None:
                       "run_circuit", handled, extra_tokens=tables.gl22_tokens(repo))
     rule_lc_check_inversion(ctx)
     rule_lc_toggle(ctx)
+    rule_sign_repair(ctx)
     rule_find_lc_binding(ctx)
     rule_lc_position(ctx)
     rule_lc_equivalent_direction(ctx)
@@ -341,6 +342,53 @@ def rule_lc_equivalent_direction(ctx: Ctx) -> None:
             raise AnalysisError(f"Graph.lc_equivalent: owners of the is_lc_equivalent arguments not resolved ({o1}, {o2})")
 
 
+def rule_sign_repair(ctx: Ctx) -> None:
+    """lc.sign-repair: converter_gate_list turns the per-qubit symplectic blocks into H / P strings, which fixes the stabilizer group only up
+    to signs (H Y H = -Y: products of H-mapped generators pick up -1 as well), and then appends the Pauli corrections computed by
+    _phase_correction from both tableaux and the gate list.  That repair must happen on every path and its result must reach the
+    returned list."""
+    from .. import flow
+    repo = ctx.repo
+    m = repo.module(LCC)
+    fn = repo.anchor(LCC, "converter_gate_list")
+    ctx.touch(m, fn)
+    rets = [r for r in ast.walk(fn) if isinstance(r, ast.Return) and r.value is not None]
+    calls = [c for c in calls_in(fn) if (call_attr(c) or getattr(c.func, "id", "")) == "_phase_correction"]
+    if not calls:
+        ctx.fail("lc.sign-repair", m, fn, "converter_gate_list no longer calls _phase_correction: the returned gates fix the target state only up to signs",
+                 func="converter_gate_list", construct="converter_gate_list: no sign repair")
+        return
+    def is_repair(node):
+        return any(x is calls[0] for x in ast.walk(node))
+    every = flow.must_pass(fn.body, is_repair)
+    # the corrections are appended to the list that is returned
+    rv = norm(rets[-1].value) if rets else None
+    asg = next((a for a in ast.walk(fn) if isinstance(a, ast.Assign) and a.value is calls[0]), None)
+    joined = False
+    if asg is not None:
+        pc = norm(asg.targets[0])
+        for a in ast.walk(fn):
+            if isinstance(a, ast.AugAssign) and isinstance(a.op, ast.Add) and norm(a.target) == rv and norm(a.value) == pc:
+                joined = True
+            if isinstance(a, ast.Call) and call_attr(a) == "extend" and norm(a.func.value) == rv and a.args and norm(a.args[0]) == pc:
+                joined = True
+        if rets and isinstance(rets[-1].value, ast.BinOp) and pc in norm(rets[-1].value):
+            joined = True
+    else:
+        for a in ast.walk(fn):
+            if isinstance(a, ast.AugAssign) and isinstance(a.op, ast.Add) and norm(a.target) == rv and a.value is calls[0]:
+                joined = True
+    # arguments: both tableaux (from g1 and g2, in this order) and the gate list built so far
+    if every and joined:
+        ctx.ok("lc.sign-repair", m, calls[0], what="_phase_correction on every path, appended to the returned list")
+    else:
+        guard = next((a for a in ast.walk(fn) if isinstance(a, ast.If) and is_repair(a)), None)
+        ctx.fail("lc.sign-repair", m, guard or calls[0],
+                 ("the sign repair runs only under `" + short(guard.test) + "`" if (guard is not None and not every) else "the corrections do not reach the returned gate list")
+                 + ": H-only solutions change signs too (H Y H = -Y), so the returned gates then reach the target state only up to a Pauli",
+                 func="converter_gate_list", construct="converter_gate_list: sign repair conditional" if not every else "converter_gate_list: corrections dropped")
+
+
 def rule_lc_toggle(ctx: Ctx) -> None:
     repo = ctx.repo
     m = repo.module(GRAPH)
@@ -380,6 +428,30 @@ def rule_lc_toggle(ctx: Ctx) -> None:
                 ok = True
     others = [c for c in calls_in(fn) if call_attr(c) in ("add_edge", "remove_edge", "add_edges_from", "remove_edges_from",
                                                          "add_node", "remove_node") and not any(c is x for x in ast.walk(loop))]
+    # every pair is visited: an early return before the loop may only cover neighbour counts below 2 (no pair exists)
+    early = []
+    for st in fn.body:
+        if st is loop or any(st is x for x in ast.walk(loop)):
+            break
+        if st.lineno >= loop.lineno:
+            break
+        if isinstance(st, ast.If) and any(isinstance(x, ast.Return) for x in ast.walk(st)) and not any(isinstance(x, ast.Raise) for x in st.body):
+            t = st.test
+            fine = False
+            if isinstance(t, ast.Compare) and len(t.ops) == 1 and isinstance(t.left, ast.Call) and call_name(t.left) == "len" and norm(t.left.args[0]) == nb \
+                    and isinstance(t.comparators[0], ast.Constant) and isinstance(t.comparators[0].value, int):
+                c = t.comparators[0].value
+                fine = (isinstance(t.ops[0], ast.Lt) and c <= 2) or (isinstance(t.ops[0], ast.LtE) and c <= 1) or (isinstance(t.ops[0], ast.Eq) and c <= 1)
+            elif isinstance(t, ast.UnaryOp) and isinstance(t.op, ast.Not) and norm(t.operand) == nb:
+                fine = True
+            if not fine:
+                early.append(st)
+    if early:
+        ctx.fail("lc.toggle", m, early[0],
+                 f"local_complementation returns early under `{short(early[0].test)}`: only a vertex with fewer than two neighbours has no pair to toggle; "
+                 f"with exactly two neighbours the edge between them must be toggled (interior vertices of paths and rings)",
+                 func="Graph.local_complementation", construct=f"local_complementation: early return {short(early[0].test, 50)}")
+        return
     if ok and not others:
         ctx.ok("lc.toggle", m, loop, what="toggles exactly the neighbour pairs")
     else:
@@ -390,6 +462,9 @@ def rule_lc_toggle(ctx: Ctx) -> None:
 
 
 KNOCKOUTS = [
+    Knockout("sign-repair-only-with-phase-gates", LCC, sub_once("    tab1 = get_stabilizer_tableau_from_graph(g1)\n    tab2 = get_stabilizer_tableau_from_graph(g2)\n    phase_correction = _phase_correction(tab1, tab2, gate_list)\n    gate_list += phase_correction\n", "    if any(\"P\" in ops for ops in lc_ops):\n        tab1 = get_stabilizer_tableau_from_graph(g1)\n        tab2 = get_stabilizer_tableau_from_graph(g2)\n        phase_correction = _phase_correction(tab1, tab2, gate_list)\n        gate_list += phase_correction\n"), "lc.sign-repair", "conditional"),
+    Knockout("sign-repair-result-dropped", LCC, sub_once("    gate_list += phase_correction\n", ""), "lc.sign-repair", "corrections dropped"),
+    Knockout("local-complementation-skips-degree-two", GRAPH, sub_once("        neighbor_pairs = itertools.combinations(neighbors, 2)\n", "        if len(neighbors) <= 2:\n            return output_graph\n        neighbor_pairs = itertools.combinations(neighbors, 2)\n"), "lc.toggle", "early return"),
     Knockout("lc-result-relabelled-insertion-order", LCE, sub_once("    new_graph = nx.to_networkx_graph(new_adj_matrix)\n", "    new_graph = nx.to_networkx_graph(new_adj_matrix)\n    new_graph = nx.relabel_nodes(new_graph, dict(enumerate(input_graph.nodes())))\n"), "lc.position", "different node order"),
     Knockout("lc-equivalent-swapped", GRAPH, sub_once("        return is_lc_equivalent(g1, g2, mode=mode)", "        return is_lc_equivalent(g2, g1, mode=mode)"), "lc.direction", "arguments swapped"),
     Knockout("lc-matrix-insertion-order", LCE, sub_once("        input_graph, nodelist=sorted(input_graph.nodes())\n", "        input_graph\n"), "lc.position", "label used as position", on_fixed_only=True),
